@@ -45,3 +45,15 @@ pub fn letter_bar(v: f64) -> Inp {
 pub fn flush_len(cfg: &Cfg) -> usize {
     cfg.p.iter().copied().max().unwrap_or(1)
 }
+
+/// active bars, then a long run of identical bars (exponential averages of the movement decay into the
+/// subnormal range and to zero), then activity again: what happens on the wake-up bar and after it
+pub fn sleep_wake_bars(seed: u64, flat: usize, level: f64) -> Vec<RawBar> {
+    let mut g = crate::props::c13::Gen::new(seed, 0, level / 30.0, 5);
+    let mut v: Vec<RawBar> = (0..30).map(|_| g.bar()).collect();
+    let f = RawBar { o: level, h: level, l: level, c: level, v: 10.0 };
+    v.extend((0..flat).map(|_| f));
+    v.extend((0..40).map(|_| g.bar()));
+    v
+}
+pub const SLEEP_LENS: [usize; 8] = [300, 645, 700, 1023, 1030, 1100, 4956, 5200];
